@@ -72,12 +72,21 @@ def gen_data(rng, i):
     revenue = orders * nprng.lognormal(2, 0.5, n) + nprng.normal(5, 1, n)
     if i % 3 == 2:
         revenue = revenue + 1e6          # a large common offset: one-pass variance formulas lose ~1e-5 relative here
+    if i % 4 == 1:
+        # variants sitting at very DIFFERENT levels (a variant's mean ~1e6..1e7 within-variant standard deviations away
+        # from the overall mean): demeaning by anything but the variant's own mean cancels catastrophically, and by a
+        # different amount for every row order, chunking and engine
+        # (the covariate stays at its ordinary level: a covariate that tracks the levels would make the CUPED-adjusted
+        # effect a difference of two numbers of size 3e7 that nearly cancel — ill-conditioned for ANY implementation)
+        level = dict(zip(ids, [0.0, 50.0, 3e7, -2e5]))
+        base_revenue = revenue
+        revenue = revenue + np.array([level[v] for v in variant])
     cols = {
         "variant": variant,
         "sessions": sessions.tolist(),                        # int column
         "orders": (orders + nprng.normal(1, 0.1, n)).tolist(),
         "revenue": revenue.tolist(),
-        "rev_cov": (0.7 * revenue + nprng.normal(0, 2, n)).tolist(),
+        "rev_cov": (0.7 * (base_revenue if i % 4 == 1 else revenue) + nprng.normal(0, 2, n)).tolist(),
         "ses_cov": (sessions + nprng.normal(0, 0.5, n) + 2).tolist(),
     }
     return idkind, ids, cols
